@@ -786,7 +786,12 @@ class VBSClusteringManager:
             # Extract radius from circular bounding box if present
             bbox = vci.get("clusterBoundingBoxShape")
             radius: Optional[float] = None
-            if bbox and "circular" in bbox:
+            if isinstance(bbox, tuple):
+                # Decoded ASN.1 CHOICE (alternative, value); radius is in units of 0.1 m
+                if bbox[0] == "circular":
+                    radius = bbox[1].get(
+                        "radius", vam_constants.MAX_CLUSTER_DISTANCE * 10) / 10.0
+            elif bbox and "circular" in bbox:
                 radius = float(bbox["circular"].get("radius", vam_constants.MAX_CLUSTER_DISTANCE))
 
             self._nearby_clusters[c_id] = _NearbyCluster(
